@@ -18,6 +18,10 @@ import (
 	"time"
 )
 
+// texts appended to the rule descriptions of the checks that use the shared layers
+const scaleRule = "; scale layers: for 34 productions (widths of $in / $all / $or / document members / pipeline stages / $lookup stages / $facet members / expression operands / $switch branches / search clauses / updates / $set members / $each / arrayFilters / deletes / documents / numeric lists outside the zones / query vectors; depths of embedded documents / $and-$or / $elemMatch / $not / nested arrays / arrays of documents / $cond / nested $lookup-$unionWith / $map-$filter / compound search; lengths of string, e-mail, $date, $binary literals and field names) ONE size is swept over every value of a range (width 1..140 + neighbourhoods of powers of two to 1 100, thorough 1..1 100 to 9 000; depth 1..70 to 300, thorough 1..300 to 1 200; length 0..1 100 bytes to 70 000, thorough 0..4 200 to 300 000) x 4 leaf mixes (strings; a cycle over all literal classes; numbers first then wrapped literals and documents; numbers incl. literals that do not survive a float64), every element / level with its own SECRET leaf"
+const streamLenRule = "; line-length sweep on the real stream code: a 3-line input whose middle line has exactly L bytes for every L up to past the reader's limit (quick: every L to 9 000 and 65 400..66 600 plus the neighbourhood of every multiple of 256; thorough: every L to 140 000), line shapes {length in a SECRET, blanks in text outside the zones of another component's line, mixed text in a KEEP attribute, an already redacted line, an $in list that grows under redaction}"
+
 type scaleKind struct {
 	name  string
 	axis  string // "width", "depth", "length"
